@@ -3,9 +3,25 @@
    [tspk_checker] / [pdp_checker] model the two checkers (sort == arange; plus the visited_time comparison for
    PDP); [is_tour] / [pdp_valid] are the independent definitions (Env/Improve.v, Env/ImprovePDP.v). *)
 From Coq Require Import ZArith List Bool Arith Permutation.
-From RL4CO Require Import Env.Improve Env.ImprovePDP Env.ImproveChecker.
+From RL4CO Require Import Env.Improve Env.ImprovePDP Env.ImproveChecker Env.ImproveCheckerFix.
 Import ListNotations.
 
+(* THE CHECKERS AS THEY ARE NOW (/repo carries the "fix:" commits b35ddfb and 90f2aa9: both checkers additionally walk
+   the successor array from node 0 and require every node to be reached): they decide validity EXACTLY, for every n.
+   [tspk_checker_fix] / [pdp_checker_fix] are their models; the statements further down are about the checkers as
+   found ([tspk_checker] / [pdp_checker]: permutation test only) and are kept as the record of the repaired
+   defects (known_findings.json: fixed). *)
+Theorem C06_improve_tspkopt_checker_exact :
+  forall rec : list nat, tspk_checker_fix rec = true <-> is_tour rec.
+Proof. exact tspk_checker_fix_exact. Qed.
+Print Assumptions C06_improve_tspkopt_checker_exact.
+
+Theorem C06_improve_pdprr_checker_exact :
+  forall (rec : list nat) (h : nat), length rec = 2 * h + 1 -> (pdp_checker_fix rec = true <-> pdp_valid rec).
+Proof. exact pdp_checker_fix_exact. Qed.
+Print Assumptions C06_improve_pdprr_checker_exact.
+
+(* ---- HISTORY: the checkers as found ---- *)
 (* complete (all n): every single-cycle tour is accepted *)
 Theorem C06_improve_tspkopt_checker_complete :
   forall rec : list nat, is_tour rec -> tspk_checker rec = true.
